@@ -327,9 +327,38 @@ def str_split_ascii_whitespace(ex, a):
     return _list_iter([Ref(Cell(StrV(p))) for p in parts])
 
 
+def _split_chars(ex, st, p):
+    """split a (possibly symbolic) string at a one-character pattern: every `c == sep` test is decided by forking"""
+    pb = D(ex, p)
+    if isinstance(pb, StrV):
+        if len(pb.chars) != 1:
+            return None
+        sep = pb.chars[0]
+    else:
+        sep = pb
+    parts, cur = [], []
+    for c in st.chars:
+        if isinstance(c, SymPiece):
+            raise Unsupported('split of text with a formatted symbolic integer')
+        iseq = (c == sep) if isinstance(c, int) and isinstance(sep, int) else simp_bool(bv(c, 32) == bv(sep, 32))
+        if ex.branch(iseq):
+            parts.append(cur)
+            cur = []
+        else:
+            cur.append(c)
+    parts.append(cur)
+    return parts
+
+
 @nat('str::split')
 def str_split(ex, a, p):
-    return _list_iter([Ref(Cell(StrV(x))) for x in D(ex, a).s.split(_pat_text(ex, p))])
+    st = D(ex, a)
+    if not st.is_concrete() or (not isinstance(D(ex, p), StrV) and is_sym(D(ex, p))):
+        parts = _split_chars(ex, st, p)
+        if parts is None:
+            raise Unsupported('split of symbolic text at a multi-char pattern')
+        return _list_iter([Ref(Cell(StrV(x))) for x in parts])
+    return _list_iter([Ref(Cell(StrV(x))) for x in st.s.split(_pat_text(ex, p))])
 
 
 @nat('str::rsplit')
@@ -587,7 +616,23 @@ def make_checked(op, ty):
 
     def f(ex, a, b):
         if is_sym(a) or is_sym(b):
-            raise Unsupported('symbolic checked_%s' % op)
+            A, B = bv(a, w), bv(b, w)
+            if op in ('div', 'rem'):
+                if ex.branch(B == 0):
+                    return NONE()
+                if sg and ex.branch(z3.And(A == (1 << (w - 1)), B == mask)):
+                    return NONE()
+                if op == 'rem':
+                    return some(z3.simplify(z3.SRem(A, B) if sg else z3.URem(A, B)))
+                return some(z3.simplify((A / B) if sg else z3.UDiv(A, B)))
+            if op == 'add':
+                ovf = z3.Or(z3.Not(z3.BVAddNoOverflow(A, B, sg)), z3.Not(z3.BVAddNoUnderflow(A, B))) if sg else z3.Not(z3.BVAddNoOverflow(A, B, False))
+                return NONE() if ex.branch(ovf) else some(z3.simplify(A + B))
+            if op == 'sub':
+                ovf = z3.Or(z3.Not(z3.BVSubNoOverflow(A, B)), z3.Not(z3.BVSubNoUnderflow(A, B, True))) if sg else z3.ULT(A, B)
+                return NONE() if ex.branch(ovf) else some(z3.simplify(A - B))
+            ovf = z3.Or(z3.Not(z3.BVMulNoOverflow(A, B, sg)), z3.Not(z3.BVMulNoUnderflow(A, B))) if sg else z3.Not(z3.BVMulNoOverflow(A, B, False))
+            return NONE() if ex.branch(ovf) else some(z3.simplify(A * B))
         x = to_signed(a, w) if sg else a
         y = to_signed(b, w) if sg else b
         if op in ('div', 'rem'):
@@ -651,6 +696,14 @@ def count_ones(ex, a):
         n = a.size()
         return z3.simplify(z3.Sum([z3.ZeroExt(31, z3.Extract(i, i, a)) for i in range(n)]))
     return bin(a).count('1')
+
+
+@nat('i64::saturating_abs')
+def i64_saturating_abs(ex, a):
+    if is_sym(a):
+        return z3.If(a == (1 << 63), z3.BitVecVal((1 << 63) - 1, 64), z3.If(a < 0, -a, a))
+    x = to_signed(a, 64)
+    return min(abs(x), (1 << 63) - 1)
 
 
 @nat('i64::wrapping_abs')
@@ -770,7 +823,7 @@ def f64_sqrt(ex, a): return math.sqrt(a) if a >= 0 else float('nan')
 def _fop(op):
     from .execu import float_binop
     r = float_binop(op)
-    return lambda ex, a, b: r(ex, a, b)
+    return lambda ex, a, b: r(ex, D(ex, a), D(ex, b))
 
 
 REG['<f64 as Add>::add'] = _fop('Add')
@@ -793,7 +846,7 @@ def i64_div(ex, a, b):
 
 
 @nat('<bool as Not>::not')
-def bool_not(ex, a): return neg(a)
+def bool_not(ex, a): return neg(D(ex, a))
 
 
 def _cmp_str(ex, a, b):
@@ -878,7 +931,10 @@ def str_parse(ex, callee, r):
 def parse_symbolic(ex, g, st):
     """parse of a string of symbolic chars: the all-digits case is the positional value (with overflow check)"""
     if g == 'f64':
-        raise Unsupported('parse::<f64> on symbolic text')
+        # over-approximation (engine M has no symbolic floats): the parse either fails or yields some float that is
+        # never inspected symbolically (any arithmetic on it is Unsupported)
+        k = ex.fresh('bool', 'parse_f64_ok')
+        return OK(float('nan')) if ex.branch(k) else ERR(Opaque('ParseFloatError'))
     if g not in ('i64', 'u32', 'u64', 'usize', 'i32'):
         raise Unsupported('parse::<%s> on symbolic text' % g)
     w, sg = W[g], g in SIGNED
@@ -889,7 +945,9 @@ def parse_symbolic(ex, g, st):
     for c in chars:
         isd = simp_bool(z3.And(z3.UGE(bv(c, 32), 48), z3.ULE(bv(c, 32), 57)))
         if not ex.branch(isd):
-            raise Unsupported('parse on symbolic non-digit text')
+            # sign characters etc.: over-approximate by "fails or yields an arbitrary value"
+            k = ex.fresh('bool', 'parse_int_ok')
+            return OK(ex.fresh(g, 'parsed')) if ex.branch(k) else ERR(Opaque('ParseIntError'))
         digs.append(c)
     if len(digs) > 18:
         raise Unsupported('symbolic number longer than 18 digits')
@@ -1037,7 +1095,7 @@ def display_value(ex, v, ty, kind='display'):
         if impl is not None:
             buf = StrV('')
             f = Adt('Formatter', 0, [buf])
-            r = ex.run(impl, [v0 if isinstance(v0, Ref) else Ref(Cell(v)), Ref(Cell(f))])
+            r = ex.run(impl, [ex.base_ref(v0) if isinstance(v0, Ref) else Ref(Cell(v)), Ref(Cell(f))])
             return buf.chars
         raise Unsupported('Display of %s' % v.name)
     if isinstance(v, Opaque):
